@@ -33,14 +33,24 @@ def check_C14(tier):
         else:
             rep.floor("%s: table obligations" % cfg, len(obs), 1 + 651 + 28 + 20 + 2 + 11 + 23 + 1)
     rep.analysed = {"configurations": sorted(c for c, _ in fx), "facts_sha": {c: f.sha[:16] for (c, _), f in fx.items()}}
-    rep.note("not decided: exactness of powf/powd (std or bundled libm) used for float powers in compact builds; "
-             "on-demand integer powers u64::pow(e) cannot overflow is proven under C08/C04 (E4)")
+    # on-demand integer powers (compact): u64::pow(e) is the exact power only if it cannot overflow -- E4 obligations `pow-no-overflow`
+    pcl = ["compact"] if tier == "quick" else ["compact", "nostd_compact"]
+    tg = ["minimal_lexical::number::{impl#0}::try_fast_path", "minimal_lexical::bigint::pow"] + ([] if tier == "quick" else ["minimal_lexical::slow::parse_mantissa"])
+    jobs = [{"config": c, "mode": m, "model": "valid", "kind": "fn", "target": t} for c in pcl for m in ("dbg", "rel") for t in tg]
+    results = run_jobs(jobs)
+    pfx = F.build_many([(c, "rel") for c in pcl])
+    _e4_report(rep, "C14", results, lambda j: "%s/%s on-demand powers" % (j["config"], j["mode"]),
+               {"%s/%s on-demand powers" % (c, m): pfx[(c, "rel")] for c in pcl for m in ("dbg", "rel")}, floor_per_group=2)
+    rep.note("not decided: exactness of powf/powd (std or bundled libm) used for float powers in compact builds. On-demand integer powers: every "
+             "u64::pow call site reachable from try_fast_path / bigint::pow (thorough: parse_mantissa) in the compact configurations is proven overflow-free (E4)")
     return rep.finish(
         "proof",
         "Exhaustive recomputation: every entry of every stored power table (651 x 128-bit Eisel-Lemire, 28+20 integer, "
         "11+23 float, 5^135 limbs; compact: 10+66 Bellerophon significands, 10 integer powers, the log2 multiplier on every "
         "exponent the tables use) is read from rustc's constant evaluation of the current tree and compared with an independent "
-        "big-integer implementation of its definition. Finite set, covered completely, in each analysed configuration.",
+        "big-integer implementation of its definition. Finite set, covered completely, in each analysed configuration. On-demand integer powers "
+        "(compact): the argument interval of every u64::pow call site is proven to keep radix^e below 2^64 by abstract interpretation, so the "
+        "computed value is the exact power.",
         [A_TOOL, A_TARGET, "POWER_OF_FIVE_128 entries are (high word, low word) as the generator prints them"],
         trusted_base=["rustc const evaluation", "Python int/Fraction arithmetic", "/verif/mlxsa/consts.py definitions"],
         checker_cmd="./check C14 --" + tier,
@@ -375,8 +385,11 @@ def check_C18(tier):
         rep.add(cfg, obs)
     rcl = ["default"] if tier == "quick" else ["default", "compact", "nostd", "nostd_compact"]
     jobs = [{"config": c, "mode": "dbg", "model": "valid", "kind": "fn", "target": "minimal_lexical::rounding::round", "pre": "round", "post": "round"} for c in rcl]
+    jobs += [{"config": c, "mode": m, "model": "valid", "kind": "masks", "target": "masks"} for c in rcl for m in ("dbg", "rel")]
     results = run_jobs(jobs)
     rfx = F.build_many([(c, "dbg") for c in rcl])
+    n_mask = sum(1 for r in results for res in r.get("results", []) for o in res["obs"] if o["kind"].startswith("post:mask"))
+    rep.floor("bit-mask helper obligations (3 helpers x 5 width classes + coverage, per configuration and mode)", n_mask, 18 * 2 * len(rcl))
     _e4_report(rep, "C18", results, lambda j: "%s round" % j["config"], {"%s round" % c: rfx[(c, "dbg")] for c in rcl},
                fn_filter=lambda o: o["kind"].startswith("post:") or o["fn"].startswith(("minimal_lexical::rounding::", "minimal_lexical::mask::")), floor_per_group=5)
     fixture = E.fixture_view(F.build_fixture("rel"))
@@ -387,8 +400,12 @@ def check_C18(tier):
     return rep.finish(
         "other",
         "(R18.1) every path through rounding::round and round_nearest_tie_even consults the rounding callback before returning (must-pass-through on the "
-        "monomorphic CFG: a path that returns without it would decide the discarded bits alone). Constants the rounding primitive consumes (CARRY_MASK, HIDDEN_BIT_MASK, MANTISSA_MASK, INFINITE_POWER, MANTISSA_SIZE) equal their definitions for both formats.",
-        [A_TOOL, A_TARGET],
+        "monomorphic CFG: a path that returns without it would decide the discarded bits alone). Constants the rounding primitive consumes (CARRY_MASK, HIDDEN_BIT_MASK, MANTISSA_MASK, INFINITE_POWER, MANTISSA_SIZE) equal their definitions for both formats. "
+        "(E4) round::<F,_> from every significand with its top bit set and every exponent whose subnormal shift is at most 64: all shifts / mask widths in range and the "
+        "post-condition 0 <= exp <= INFINITE_POWER, mant <= HIDDEN_BIT_MASK, exp = INFINITE_POWER => mant = 0. Bit-mask helpers (lower_n_mask, lower_n_halfway, nth_bit) "
+        "for all widths 0..=64: on each class of the partition {0},{1},[2,62],{63},{64} the abstract result lies inside the hull of the definition over that class "
+        "(exact on the boundary widths). The nearest-even decision itself is NOT decided.",
+        A_E4 + [A_TOOL, A_TARGET],
     )
 
 
@@ -612,6 +629,9 @@ def _stackvec_entries(f):
     return sorted(set(out))
 
 
+FALLIBLE_VEC_OPS = ("try_push", "try_extend", "try_resize")
+
+
 def check_C13(tier):
     rep = Report("C13", tier)
     cl = ["default"] if tier == "quick" else ["default", "compact", "nostd", "nostd_compact"]
@@ -622,7 +642,14 @@ def check_C13(tier):
         for d in _stackvec_entries(fx[(c, "rel")]):
             for m, mod in modes:
                 jobs.append({"config": c, "mode": m, "model": mod, "kind": "fn", "target": d})
+        # a failed push / extend / resize leaves the vector unchanged (post-condition on the exits returning None)
+        for meth in FALLIBLE_VEC_OPS:
+            for m, mod in modes:
+                jobs.append({"config": c, "mode": m, "model": mod, "kind": "fn", "target": "minimal_lexical::stackvec::{impl#0}::" + meth,
+                             "pre": "pristine", "post": "failure-unchanged"})
     results = run_jobs(jobs)
+    n_fu = sum(1 for r in results for res in r.get("results", []) for o in res["obs"] if o["kind"] == "post:a failed operation leaves the vector unchanged")
+    rep.floor("failure-leaves-vector-unchanged post-conditions", n_fu, len(FALLIBLE_VEC_OPS) * len(modes) * len(cl))
     # entries without a monomorphic instance are reported, not failed: nothing in the build can call them
     missing = sorted(set(r["job"]["target"] for r in results if "error" in r and "no instance" in r["error"]))
     results2 = [r for r in results if not ("error" in r and "no instance" in r["error"])]
@@ -657,7 +684,8 @@ def check_C13(tier):
         "small_mul/small_add_from/large_add_from/long_mul/large_mul/pow/from_u64) is analysed standalone from EVERY state satisfying INV with all other "
         "arguments unconstrained (preconditions of audit/contracts.py only), in debug and release MIR: all raw accesses in bounds, all raw reads "
         "below the initialised prefix, slices expose exactly [0, length), INV holds at every exit. Field privacy (from tcx.visibility) closes the "
-        "induction over histories.",
+        "induction over histories. Failure atomicity: on every exit of try_push / try_extend / try_resize that returns None, every tracked cell of "
+        "*self holds the atom it held on entry and no raw or untracked memory write happened on the path.",
         A_E4 + [A_TOOL, A_TARGET],
     )
 
